@@ -4,6 +4,7 @@ package main
 
 import (
 	"fmt"
+	"go/constant"
 	"go/token"
 	"go/types"
 	"os"
@@ -209,15 +210,133 @@ func paramDerefsStatic(f *ssa.Function, i, depth int) bool {
 
 // nilGuarded: instruction `in` is only reachable through an edge on which v != nil
 func nilGuarded(in ssa.Instruction, v ssa.Value) bool {
-	fn := in.Parent()
+	return nilGuardedBlock(in.Parent(), in.Block(), v) || nilGuardedByCorrelation(in, v)
+}
+
+func nilGuardedBlock(fn *ssa.Function, target *ssa.BasicBlock, v ssa.Value) bool {
 	for _, b := range fn.Blocks {
 		iff := ifOf(b)
 		if iff == nil {
 			continue
 		}
 		_, nn, ok := nilEdgesOf(iff, func(x ssa.Value) bool { return sameNilSubject(x, v) })
-		if ok && mustPassEdges(fn, in.Block(), nn) {
+		if ok && mustPassEdges(fn, target, nn) {
 			return true
+		}
+	}
+	return false
+}
+
+// emptinessEdgesOf: when iff tests whether w (a string, slice, map, pointer or interface) is empty — w == nil, w == "",
+// len(w) == 0 and their negations and orderings against 0 — the edge on which w is non-empty and the edge on which it is
+// empty
+func emptinessEdgesOf(iff *ssa.If, w ssa.Value) (nonEmpty, empty Edge, ok bool) {
+	t, f := Edge{iff.Block(), iff.Block().Succs[0]}, Edge{iff.Block(), iff.Block().Succs[1]}
+	if nl, nn, ok := nilEdgesOf(iff, func(x ssa.Value) bool { return x == w }); ok {
+		return nn, nl, true
+	}
+	bo, isBin := iff.Cond.(*ssa.BinOp)
+	if !isBin {
+		return
+	}
+	isLenW := func(x ssa.Value) bool {
+		cl, ok := x.(*ssa.Call)
+		return ok && isBuiltinCall(cl.Common(), "len") && cl.Call.Args[0] == w
+	}
+	isZero := func(x ssa.Value) bool { k, ok := intConst(x); return ok && k == 0 }
+	isEmptyStr := func(x ssa.Value) bool {
+		k, ok := x.(*ssa.Const)
+		return ok && k.Value != nil && k.Value.Kind() == constant.String && constant.StringVal(k.Value) == ""
+	}
+	switch {
+	case (isLenW(bo.X) && isZero(bo.Y)) || (bo.X == w && isEmptyStr(bo.Y)):
+		switch bo.Op {
+		case token.EQL, token.LEQ:
+			return f, t, true
+		case token.NEQ, token.GTR:
+			return t, f, true
+		}
+	case (isLenW(bo.Y) && isZero(bo.X)) || (bo.Y == w && isEmptyStr(bo.X)):
+		switch bo.Op {
+		case token.EQL, token.GEQ:
+			return f, t, true
+		case token.NEQ, token.LSS:
+			return t, f, true
+		}
+	}
+	return
+}
+
+// nilGuardedByCorrelation: the dereference is guarded through a second variable.
+//
+//	var u string
+//	if v != nil { u = v.f() }
+//	if len(u) == 0 { return }
+//	v.g()
+//
+// A merge block M (not on a cycle, dominating the use) holds a φ w whose incoming value is the empty constant ("" or
+// nil) on some edges; the use is reachable only through an edge on which w is known non-empty, so M was entered through
+// one of the other edges; every one of those predecessors lies behind the non-nil edge of a test of v.
+func nilGuardedByCorrelation(in ssa.Instruction, v ssa.Value) bool {
+	fn := in.Parent()
+	emptyConst := func(x ssa.Value) bool {
+		k, ok := x.(*ssa.Const)
+		if !ok {
+			return false
+		}
+		if k.Value == nil {
+			return true
+		}
+		return k.Value.Kind() == constant.String && constant.StringVal(k.Value) == ""
+	}
+	nonEmptyEdge := func(iff *ssa.If, w ssa.Value) (Edge, bool) {
+		ne, _, ok := emptinessEdgesOf(iff, w)
+		return ne, ok
+	}
+	for _, m := range fn.Blocks {
+		if len(m.Preds) < 2 || !(m == in.Block() || m.Dominates(in.Block())) || inCycle(m) {
+			continue
+		}
+		for _, mi := range m.Instrs {
+			w, ok := mi.(*ssa.Phi)
+			if !ok {
+				break
+			}
+			if ssa.Value(w) == v {
+				continue
+			}
+			nEmpty := 0
+			for _, ed := range w.Edges {
+				if emptyConst(ed) {
+					nEmpty++
+				}
+			}
+			if nEmpty == 0 || nEmpty == len(w.Edges) {
+				continue
+			}
+			guarded := false
+			for _, b := range fn.Blocks {
+				if iff := ifOf(b); iff != nil && (m == b || m.Dominates(b)) {
+					if e, ok := nonEmptyEdge(iff, w); ok && mustPassEdges(fn, in.Block(), e) {
+						guarded = true
+					}
+				}
+			}
+			if !guarded {
+				continue
+			}
+			all := true
+			for i, ed := range w.Edges {
+				if emptyConst(ed) {
+					continue
+				}
+				if !nilGuardedBlock(fn, m.Preds[i], v) {
+					all = false
+				}
+			}
+			if all {
+				return true
+			}
 		}
 	}
 	return false
